@@ -21,6 +21,7 @@ type vfGWScenario struct {
 	DevKinds  []string             `json:"dev_kinds,omitempty"`  // choice kinds that may deviate ("peers", "strings", "pick", "coin")
 	DevMax    int                  `json:"dev_max,omitempty"`    // max choice points per event considered for deviation
 	DevEvents []string             `json:"dev_events,omitempty"` // event name prefixes whose choices may deviate
+	Leaf      []string             `json:"leaf,omitempty"`       // events applied at every state, never expanded
 }
 
 type vfGWOracle func(in *vfGWInst, ev string, pre, post *vfSnap)
@@ -66,7 +67,7 @@ func (in *vfGWInst) track(evFull string) {
 		in.announced[f[1]][f[2]] = true
 	case "unsub":
 		delete(in.announced[f[1]], f[2])
-	case "disc":
+	case "disc", "inclose", "inreset", "inopen", "outreset", "outclose":
 		in.announced[f[1]] = map[string]bool{}
 	case "lpub":
 		if in.lpubDone == nil {
@@ -89,11 +90,17 @@ func (in *vfGWInst) Enabled() []string {
 		case "disc":
 			ok = g.conn[f[1]]
 		case "sub":
-			ok = g.conn[f[1]] && !in.announced[f[1]][f[2]]
+			ok = g.conn[f[1]] && !in.announced[f[1]][f[2]] && g.fake(f[1]).inAlive()
 		case "unsub":
-			ok = g.conn[f[1]] && in.announced[f[1]][f[2]]
+			ok = g.conn[f[1]] && in.announced[f[1]][f[2]] && g.fake(f[1]).inAlive()
 		case "graft", "prune", "prunepx", "pub", "ihave", "iwant", "idw":
+			ok = g.conn[f[1]] && g.fake(f[1]).inAlive()
+		case "inclose", "inreset":
+			ok = g.conn[f[1]] && g.fake(f[1]).inAlive()
+		case "inopen":
 			ok = g.conn[f[1]]
+		case "outreset", "outclose":
+			ok = g.conn[f[1]] && g.fake(f[1]).outAlive()
 		case "join":
 			ok = len(g.subs[f[1]]) == 0
 		case "leave":
@@ -241,7 +248,7 @@ func vfRunGWScenarios(r *vfRun, scs []*vfGWScenario, mk func(x *vfExec, sc *vfGW
 			continue
 		}
 		sc := sc
-		vfExplore(r, &vfExploreCfg{Scenario: sc, Name: sc.Name, MaxDepth: sc.Depth, Bubble: true,
+		vfExplore(r, &vfExploreCfg{Scenario: sc, Name: sc.Name, MaxDepth: sc.Depth, Bubble: true, Leaf: sc.Leaf,
 			New: func(x *vfExec) vfInstance { return mk(x, sc) }})
 	}
 }
